@@ -17,7 +17,7 @@ _ENV_RULE = ("cases = (n, hidden-game family, computer matching the family, gap 
              "distinct by (configuration, operation list)")
 
 PROPS = {
-    "C01": {"lean": "ICG.Props.C01", "streams": [("corr_bounds", "C01"), ("corr_hist", "C01")], "rule": _BOUNDS_RULE,
+    "C01": {"lean": ["ICG.Props.C01", "ICG.Props.FloatError"], "streams": [("corr_bounds", "C01"), ("corr_hist", "C01")], "rule": _BOUNDS_RULE,
             "assumptions": ["float rounding is outside the theorems; exact stream uses integer/dyadic values on which float64 arithmetic is exact"],
             "quick_s": 60, "thorough_s": 600},
     "C02": {"lean": "ICG.Props.C02", "streams": [("corr_bounds", "C02")], "rule": _BOUNDS_RULE, "quick_s": 60, "thorough_s": 600},
